@@ -36,8 +36,10 @@ def make(kind, mode="min", seed=0, R=4, mra=True, space=None, metric="m", allow_
         so["allow_duplicates"] = True
     if kw.get("restrict"):
         n = kw.pop("restrict")
-        so["restrict_configurations"] = shared("rc", [{"a": round(0.05 + 0.09 * i, 3), "b": (3 * i) % 10} for i in range(n)])
-        kw.setdefault("points_to_evaluate", [])
+        rc = [{"a": round(0.05 + 0.09 * i, 3), "b": (3 * i) % 10} for i in range(n)]
+        so["restrict_configurations"] = shared("rc", rc)
+        # restrict_p2e: initial points that are members of the list (they are taken out of it before the first draw)
+        kw.setdefault("points_to_evaluate", [dict(rc[i]) for i in kw.pop("restrict_p2e", [])])
     so = shared("so", so)
     info = dict(metric=metric, resource_attr="epoch", mra=None, metrics=None)
     base_space = dict(space) if space is not None else {"a": uniform(0, 1), "b": randint(0, 9)}
